@@ -4,7 +4,7 @@
    vnone = the value Python calls None.  A dictionary is the list of its items in insertion order;
    "well-formed" (pairwise different keys) is the hypothesis NoDup (map fst d) where it is needed. *)
 From Coq Require Import List ZArith NArith Bool Permutation.
-From Orso Require Import Model.C02 Proofs.C02.
+From Orso Require Import Model.C02 Proofs.C02 Proofs.C02_Session.
 Import ListNotations.
 
 (* Row(dict) has exactly one cell per field, duplicates included. *)
@@ -242,6 +242,81 @@ Theorem C02_get_of_dict :
 Proof. exact row_get_extract. Qed.
 Print Assumptions C02_get_of_dict.
 
+(* ---------- sessions: several row classes and frames in one process ----------
+   [s] is the state after ANY earlier history (in particular one in which a tuples-only class, an
+   Arrow frame or another frame over exactly the same names was created), [ops] ANY later history. *)
+
+(* A class made by Row.create_class(fs) builds a row from a dictionary by field name, and a class made
+   with either flag stores a tuple as given under its own names - whatever was created before it and
+   whatever is created or used between its creation and the call. *)
+Theorem C02_session_class_keeps_meaning :
+  forall (K V : Type) (eqK : forall a b : K, {a = b} + {a <> b}) (vnone : V)
+         (s : sstate K V) (fs : list K) (ops : list (sop K V)),
+  (forall d : list (K * V),
+     snd (sstep eqK vnone (fst (srun eqK vnone (fst (sstep eqK vnone s (SClass fs false))) ops))
+                (SRowDict (length (s_classes s)) d)) =
+     SORow fs (extract eqK vnone fs d) (as_dict eqK fs (extract eqK vnone fs d))) /\
+  (forall (t : bool) (cells : list V),
+     snd (sstep eqK vnone (fst (srun eqK vnone (fst (sstep eqK vnone s (SClass fs t))) ops))
+                (SRowTuple (length (s_classes s)) cells)) =
+     SORow fs cells (as_dict eqK fs cells)).
+Proof.
+  intros K V eqK vnone s fs ops. split.
+  - exact (session_row_by_name K V eqK vnone s fs ops).
+  - intros t. exact (session_row_of_tuple K V eqK vnone s fs t ops).
+Qed.
+Print Assumptions C02_session_class_keeps_meaning.
+
+(* A frame that takes dictionaries keeps its columns and only grows by rows as wide as the columns;
+   append(d) after any later history adds exactly d read through the frame's own columns.  Stated
+   for a frame already in the state, for DataFrame(dicts) and for DataFrame(rows=[], schema=cols)
+   created after any history. *)
+Theorem C02_session_frame_keeps_columns :
+  forall (K V : Type) (eqK : forall a b : K, {a = b} + {a <> b}) (vnone : V)
+         (s : sstate K V) (ops : list (sop K V)) (d : list (K * V)),
+  (forall f cols rows, nth_error (s_frames s) f = Some (true, (cols, rows)) ->
+     exists extra,
+       Forall (fun r => length r = length cols) extra /\
+       snd (sstep eqK vnone (fst (srun eqK vnone s ops)) (SRows f)) = SOFrame cols (rows ++ extra) /\
+       snd (sstep eqK vnone (fst (srun eqK vnone s ops)) (SAppend f d)) =
+       SOFrame cols (rows ++ extra ++ [extract eqK vnone cols d])) /\
+  (forall ds : list (list (K * V)),
+     let cols := fst (frame_of_dicts eqK vnone ds) in
+     exists extra,
+       Forall (fun r => length r = length cols) extra /\
+       snd (sstep eqK vnone (fst (srun eqK vnone (fst (sstep eqK vnone s (SFrame ds))) ops))
+                  (SAppend (length (s_frames s)) d)) =
+       SOFrame cols (map (extract eqK vnone cols) ds ++ extra ++ [extract eqK vnone cols d])) /\
+  (forall cols : list K,
+     exists extra,
+       Forall (fun r => length r = length cols) extra /\
+       snd (sstep eqK vnone (fst (srun eqK vnone (fst (sstep eqK vnone s (SNamed cols))) ops))
+                  (SAppend (length (s_frames s)) d)) =
+       SOFrame cols (extra ++ [extract eqK vnone cols d])).
+Proof.
+  intros K V eqK vnone s ops d. split; [|split].
+  - intros f cols rows. exact (session_frame_grown K V eqK vnone s f cols rows ops d).
+  - intros ds. exact (session_frame_of_dicts K V eqK vnone s ds ops d).
+  - intros cols. exact (session_frame_named K V eqK vnone s cols ops d).
+Qed.
+Print Assumptions C02_session_frame_keeps_columns.
+
+(* Nothing that happens later changes a frame read from Arrow or a row that has been built. *)
+Theorem C02_session_later_calls_inert :
+  forall (K V : Type) (eqK : forall a b : K, {a = b} + {a <> b}) (vnone : V)
+         (s : sstate K V) (ops : list (sop K V)),
+  (forall cols rows,
+     snd (sstep eqK vnone (fst (srun eqK vnone (fst (sstep eqK vnone s (SArrow cols rows))) ops))
+                (SRows (length (s_frames s)))) = SOFrame cols rows) /\
+  (forall r fr, nth_error (s_rows s) r = Some fr ->
+     snd (sstep eqK vnone (fst (srun eqK vnone s ops)) (SView r)) = row_out eqK fr).
+Proof.
+  intros K V eqK vnone s ops. split.
+  - intros cols rows. exact (session_arrow_fixed K V eqK vnone s cols rows ops).
+  - intros r fr. exact (session_view_stable K V eqK vnone s r fr ops).
+Qed.
+Print Assumptions C02_session_later_calls_inert.
+
 (* ---------- non-vacuity: the hypotheses are satisfiable by non-trivial values ---------- *)
 Local Open Scope Z_scope.
 Definition ex_a : key := [97%N].
@@ -278,3 +353,21 @@ Example C02_nonvacuous_frame :
     ([ex_b; ex_a; ex_c], [[2; 1; 3]; [0; 5; 0]; [0; 0; 6]]) /\
   frame_appends key_dec 0 ([ex_a; ex_b], []) [[(ex_b, 2); (ex_c, 3)]] = ([ex_a; ex_b], [[0; 2]]).
 Proof. repeat split; reflexivity. Qed.
+
+(* sessions: a tuples-only class and an Arrow frame over (a, b) are created first, then a class and two
+   frames over exactly the same names are given dictionaries in the other key order, with a gap and
+   an extra key *)
+Example C02_nonvacuous_session :
+  snd (srun key_dec 0 s_init
+         [SClass [ex_a; ex_b] true; SArrow [ex_a; ex_b] [[10; 11]];
+          SClass [ex_a; ex_b] false; SRowDict 1%nat [(ex_b, 2); (ex_a, 1); (ex_c, 3)];
+          SFrame [[(ex_a, 1); (ex_b, 2)]]; SNamed [ex_a; ex_b];
+          SAppend 1%nat [(ex_b, 5)]; SAppend 2%nat [(ex_b, 7); (ex_a, 6)];
+          SRowTuple 0%nat [8; 9]; SView 0%nat; SRows 0%nat]) =
+  [SOClass; SOFrame [ex_a; ex_b] [[10; 11]];
+   SOClass; SORow [ex_a; ex_b] [1; 2] [(ex_a, 1); (ex_b, 2)];
+   SOFrame [ex_a; ex_b] [[1; 2]]; SOFrame [ex_a; ex_b] [];
+   SOFrame [ex_a; ex_b] [[1; 2]; [0; 5]]; SOFrame [ex_a; ex_b] [[6; 7]];
+   SORow [ex_a; ex_b] [8; 9] [(ex_a, 8); (ex_b, 9)];
+   SORow [ex_a; ex_b] [1; 2] [(ex_a, 1); (ex_b, 2)]; SOFrame [ex_a; ex_b] [[10; 11]]].
+Proof. reflexivity. Qed.
